@@ -225,6 +225,19 @@ def rw_small_workloads():
           [{"op": "close"}, {"op": "create_stream", "name": "b"}, {"op": "create_stream", "name": "b"},
            {"op": "write_all", "runs": f.runs(rng, 5000)}, {"op": "position"}] + FL + [{"op": "close"}] + reread("bar") + reread("b")
     out.append({"ver": 3, "maxbuf": None, "mode": "rw_faults", "streams": streams, "ops": ops, "every_k": True})
+    # the allocation that needs the 110th FAT sector of a version 3 file: the header's 109 DIFAT slots are full, a DIFAT
+    # sector is added as well (7.1 MB; the stream is written before the faults are armed), then the file keeps growing
+    streams = [{"name": "bar", "runs": [[f.next(), 3000000], [f.next(), 4080000]]}]
+    ops = [{"op": "open"}, {"op": "open_stream", "name": "bar"}, {"op": "open_stream", "name": "bar"},
+           {"op": "seek", "whence": "end", "d": 0, "sym": ""}, {"op": "position"},
+           {"op": "write_all", "runs": f.runs(rng, 10000)}, {"op": "position"}] + FL + \
+          [{"op": "seek", "whence": "end", "d": 0, "sym": ""}, {"op": "position"},
+           {"op": "write_all", "runs": f.runs(rng, 70000)}, {"op": "position"}] + FL + \
+          [{"op": "close"}, {"op": "create_stream", "name": "b"}, {"op": "create_stream", "name": "b"},
+           {"op": "write_all", "runs": f.runs(rng, 5000)}, {"op": "position"}] + FL + [{"op": "close"}] + reread("bar") + reread("b")
+    # faults inside the two appends and their flushes (op indexes); the read-backs alone are 40,000 backend calls
+    out.append({"ver": 3, "maxbuf": None, "mode": "rw_faults", "streams": streams, "ops": ops,
+                "fault_ops": [5, 7, 9, 13, 15, 17], "fault_ops_quick": [5, 7]})
     # removal of an entry with two children whose predecessor is not its own child (sibling tree k4 -> (k2 -> k1, k3), k6):
     # several links are rewritten; every other entry must still be there after a failed and retried removal
     for ver in (3, 4):
